@@ -28,6 +28,7 @@ import contextlib
 import hashlib
 import io
 import os
+import pathlib
 import pickle
 import shutil
 import stat
@@ -49,8 +50,9 @@ CLAIM = (
     "AutoSerialize objects; containers with arrays; thorough adds a combined graph) every failing save is executed on the "
     "real code: (i) an unpicklable value at every attribute/element position of every nesting level, (ii) an exception "
     "(OSError, KeyboardInterrupt; thorough adds RuntimeError) injected at every numbered third-party write effect of a "
-    "recorded reference save (zarr group/array/attribute writes, zip writes and close), each for both stores, both modes "
-    "and 4 pre-states of the target. After every failure the target is absent, unreadable by load(), or loads to the "
+    "recorded reference save (zarr group/array/attribute writes, zip writes and close), each for both stores, both modes, "
+    "4 pre-states of the target and every spelling of the target (with or without the '.zip' suffix that save() appends itself, "
+    "str or pathlib.Path). After every failure the target is absent, unreadable by load(), or loads to the "
     "complete earlier (or complete new) object; mode 'w' never changes an existing target (recursive content hash); no "
     "sibling path and no temp-dir entry is changed or leaked. Fault enumeration is the right level because the property "
     "quantifies over the fault positions of one finite write sequence."
@@ -64,7 +66,8 @@ NOTE = (
 RULE = (
     "Cartesian product graph x fault position (every recorded write effect k, resp. every attribute/element position) x "
     "exception class x store {zip,dir} x mode {w,o} x pre-state {absent, earlier complete save of another object, plain "
-    "file, directory}, plus the no-fault controls. A case is non-trivial when the fault actually fired inside save() "
+    "file, directory} x target spelling {'.zip' path | extension-less path with store='zip' (effective target path+'.zip', the "
+    "un-suffixed path being an absent / directory-store / plain-file sibling); str | pathlib.Path}, plus the no-fault controls. A case is non-trivial when the fault actually fired inside save() "
     "(mode 'w' on an existing target is refused before any write and counts as trivial)."
 )
 
@@ -74,6 +77,14 @@ PRES = ["absent", "old", "file", "directory"]
 INJ_EXC = {"OSError": OSError, "RuntimeError": RuntimeError, "KeyboardInterrupt": KeyboardInterrupt}
 POISON_EXC = {"PicklingError": pickle.PicklingError, "KeyboardInterrupt": KeyboardInterrupt}
 GRAPHS = ["attrs", "arrays", "tensors", "nested", "containers", "mixed_all"]
+# Target spelling: how the same target is named in the call. zip: the path given ends in ".zip", or an extension-less
+# path P is given with store="zip" (the library appends ".zip": the EFFECTIVE target is P.zip and P itself is a sibling
+# holding nothing / an unrelated complete directory-store object / a plain file); both stores: str or pathlib.Path.
+# The first entry of each list is the baseline spelling.
+SPELLINGS = {
+    "zip": ["suffixed-str-dirstore", "suffixed-Path-dirstore", "bare-str-absent", "bare-str-dirstore", "bare-str-file", "bare-Path-dirstore"],
+    "dir": ["str", "Path"],
+}
 
 
 # ----------------------------------------------------------------------------- test classes (module level: load() imports them)
@@ -487,7 +498,12 @@ def _cls(relation, case):
         "mode": case["mode"],
         "pre": case["pre"],
         "exc": case.get("exc") or "none",
+        "spelling": spelling_of(case),
     }
+
+
+def spelling_of(case):
+    return case.get("spell") or SPELLINGS[case["store"]][0]
 
 
 def run_case(case, seed, scratch, verbose=False):
@@ -500,7 +516,15 @@ def run_case(case, seed, scratch, verbose=False):
     os.makedirs(parent)
     os.makedirs(tmpd)
     tname = "o.zip" if store == "zip" else "o"
-    target = os.path.join(parent, tname)
+    target = os.path.join(parent, tname)  # the EFFECTIVE target: every oracle is about this path
+    spell = spelling_of(case)
+    if store == "zip":
+        ext, ptype, stem = spell.split("-")
+        given = target if ext == "suffixed" else os.path.join(parent, "o")
+    else:
+        ext, ptype, stem = "bare", spell, None
+        given = target
+    arg = pathlib.Path(given) if ptype == "Path" else given
     fails = []
     rec = {"fired": False}
     saved_tempdir = tempfile.tempdir
@@ -510,7 +534,13 @@ def run_case(case, seed, scratch, verbose=False):
         tpl_dir = _template(scratch, seed, "dir")
         # ---- siblings: the same-stem path of the other store kind, look-alike names, a file, a directory, a hidden file
         if store == "zip":
-            _copy(tpl_dir, os.path.join(parent, "o"))
+            # the un-suffixed path next to the archive is NOT the target, whatever spelling is used
+            if stem == "dirstore":
+                _copy(tpl_dir, os.path.join(parent, "o"))
+            elif stem == "file":
+                _write(os.path.join(parent, "o"), b"plain file at the extension-less path\n")
+            elif stem != "absent":
+                raise ValueError(spell)
         else:
             _copy(tpl_zip, os.path.join(parent, "o.zip"))
         _write(os.path.join(parent, tname + ".tmp"), b"sibling tmp look-alike")
@@ -550,7 +580,7 @@ def run_case(case, seed, scratch, verbose=False):
             r = Recorder(case.get("k"), INJ_EXC[case["exc"]] if case.get("exc") else None, root=os.path.abspath(cdir))
             with intercepted(r):  # seams are restored on exit, whatever happens (workers are long-lived)
                 try:
-                    _quiet_save(obj, target, mode=mode, store=store)
+                    _quiet_save(obj, arg, mode=mode, store=store)
                 except BaseException as e:  # the behaviour under test (incl. KeyboardInterrupt)
                     raised = type(e).__name__
             rec["fired"] = r.fired is not None
@@ -559,7 +589,7 @@ def run_case(case, seed, scratch, verbose=False):
             rec["effect"] = r.fired
         else:
             try:
-                _quiet_save(obj, target, mode=mode, store=store)
+                _quiet_save(obj, arg, mode=mode, store=store)
             except BaseException as e:
                 raised = type(e).__name__
             rec["fired"] = C08Poison.fired > poison_before
@@ -596,6 +626,8 @@ def run_case(case, seed, scratch, verbose=False):
                     state = "UNREADABLE_AFTER_SUCCESS"
                     fails.append((_cls("successful_save_round_trips", case), f"{describe(case)}: save() returned normally but load(target) raised {type(e).__name__}: {str(e)[:200]}"))
         else:
+            if fam in ("control", "record"):
+                fails.append((_cls("no_fault_save_succeeds", case), f"{describe(case)}: nothing was injected and the target is {'absent' if pre == 'absent' else 'to be overwritten (mode o)'}, but save() raised {raised}; expected success"))
             if not os.path.lexists(target):
                 state = "absent"
             else:
@@ -645,24 +677,34 @@ def describe(case):
         where = f"value raising {case['exc']} on pickling at {path_str(case['path'])}"
     else:
         where = "no fault"
-    return f"graph={case['graph']} store={case['store']} mode={case['mode']} pre={case['pre']}: {where}"
+    sp = spelling_of(case)
+    if case["store"] == "zip":
+        ext, ptype, stem = sp.split("-")
+        how = f"path given as {ptype} " + ("'…/o.zip'" if ext == "suffixed" else "'…/o' (extension-less, library appends .zip; effective target o.zip)") + f", un-suffixed sibling 'o' holds {'nothing' if stem == 'absent' else 'a complete directory-store object' if stem == 'dirstore' else 'a plain file'}"
+    else:
+        how = f"path given as {sp}"
+    return f"graph={case['graph']} store={case['store']} mode={case['mode']} pre={case['pre']} [{how}]: {where}"
 
 
 def case_key(case):
-    return [case["family"], case["graph"], case["store"], case["mode"], case["pre"], case.get("exc"), case.get("k"), case.get("path")]
+    return [case["family"], case["graph"], case["store"], case["mode"], case["pre"], case.get("exc"), case.get("k"), case.get("path"), spelling_of(case)]
 
 
 def work(case, seed=0, scratch="/tmp"):
     t = Tally()
     rec, fails = run_case(case, seed, scratch)
     expect_fire = case["family"] in ("injected", "seamfree") and not (case["mode"] == "w" and case["pre"] != "absent")
-    t.case(key=case_key(case), nontrivial=bool(rec["fired"]), outcome=[case["family"], case["store"], case["mode"], case["pre"], rec["raised"], rec["state"], bool(rec["fired"])])
+    t.case(key=case_key(case), nontrivial=bool(rec["fired"]), outcome=[case["family"], case["store"], spelling_of(case), case["mode"], case["pre"], rec["raised"], rec["state"], bool(rec["fired"])])
     t.extra[f"{case['family']}_cases"] += 1
     t.extra[f"state_{rec['state'].split(':')[0]}"] += 1
     if rec["fired"]:
         t.extra[f"{case['family']}_faults_fired"] += 1
     elif expect_fire:
         t.extra["expected_fault_did_not_fire"] += 1
+    if case["family"] == "record" and rec.get("effects_seen") != case.get("n_effects"):
+        t.extra["effect_count_differs_for_spelling"] += 1
+    if "spell" in case:
+        t.extra["non_baseline_spelling_cases"] += 1
     if case["family"] in ("injected", "seamfree") and not expect_fire:
         t.extra["write_once_refusals_checked"] += 1
         if rec["fired"]:
@@ -677,6 +719,8 @@ def work(case, seed=0, scratch="/tmp"):
             want = (case["mode"] == "o" and case["k"] == case["n_effects"] // 2) or (case["mode"] == "w" and case["k"] == 0 and case["graph"] == "attrs")
         elif case["family"] == "seamfree" and case["mode"] == "o":
             want = len(case["path"]) >= 2 and case["graph"] == "nested" and case["path"][-1][1] == "q"
+    if "spell" in case:
+        want = case["family"] == "injected" and case["graph"] == "arrays" and case["pre"] == "old" and case["spell"] == "bare-str-dirstore" and case["k"] == case["n_effects"] - 1
     if want:
         t.sample({"case": describe(case), "fault_fired": bool(rec["fired"]), "at_effect": rec.get("effect"), "save": f"raised {rec['raised']}" if rec["raised"] else "returned", "target_after": rec["state"]}, cap=1)
     return t
@@ -732,51 +776,80 @@ def run(ctx):
     else:
         ctx.say("effects per (graph, store): " + ", ".join(f"{g}/{s}={len(v)}" for (g, s), v in effects.items()))
 
-    # ---- enumeration. thorough: the full product. quick: the same product over every fault position, with three
-    # stated reductions: the five single-purpose graphs only (the combined graph, 30 % of all effects and the most
-    # expensive executions, is left to thorough); RuntimeError (an Exception subclass like OSError) and the
-    # KeyboardInterrupt poison are left to thorough; mode 'w' on an existing target (refused before the first write,
-    # so the fault position cannot matter) is run for the first and the last position only.
+    # ---- enumeration. thorough: the full product for the baseline spelling. quick: the same product over every fault
+    # position, with three stated reductions: the five single-purpose graphs only (the combined graph, 30 % of all
+    # effects and the most expensive executions, is left to thorough); RuntimeError (an Exception subclass like OSError)
+    # and the KeyboardInterrupt poison are left to thorough, and KeyboardInterrupt is injected into the three cheapest
+    # graphs only (whether a BaseException is cleaned up does not depend on the graph); mode 'w' on an existing target
+    # (refused before the first write, so the fault position cannot matter) is run for the first and the last position only.
+    # Non-baseline target spellings (SPELLINGS[store][1:]) multiply every family: thorough = every graph and every fault
+    # position with OSError / PicklingError; quick = graphs attrs and arrays, fault positions first / middle / middle of
+    # the zip assembly / last (seam-free: first / last). Each of them also gets its own recorded no-fault run whose effect count must equal the
+    # reference list (so the numbering used for the injection is the right one for that spelling too).
     inj_exc = ["OSError", "KeyboardInterrupt"] if ctx.quick else list(INJ_EXC)
     poison_exc = ["PicklingError"] if ctx.quick else list(POISON_EXC)
+    alt_graphs = [g for g in graphs if g in ("attrs", "arrays")] if ctx.quick else list(graphs)
+    ki_graphs = ["attrs", "arrays", "nested"] if ctx.quick else list(graphs)
 
     def keep(m, p, idx, n):
         return not (ctx.quick and m == "w" and p != "absent" and idx not in (0, n - 1))
+
+    def spellings(g, s):
+        """(spelling, is_baseline) for this graph and store."""
+        out = [(SPELLINGS[s][0], True)]
+        if g in alt_graphs:
+            out += [(sp, False) for sp in SPELLINGS[s][1:]]
+        return out
+
+    def tag_spell(case, sp, base):
+        if not base:
+            case["spell"] = sp  # the baseline stays implicit: shortest case descriptors for the simplest spelling
+        return case
 
     cases = []
     # no-fault controls
     for g in graphs:
         for s in STORES:
-            for m in MODES:
-                for p in PRES:
-                    cases.append({"family": "control", "graph": g, "store": s, "mode": m, "pre": p, "exc": None})
+            for sp, base in spellings(g, s):
+                for m in MODES:
+                    for p in PRES:
+                        cases.append(tag_spell({"family": "control", "graph": g, "store": s, "mode": m, "pre": p, "exc": None}, sp, base))
     # family (i): seam-free
     npos = {}
     for g in graphs:
         pos = positions(build_graph(g, ctx.seed))
         npos[g] = len(pos)
-        for pi, path in enumerate(pos):
-            for e in poison_exc:
-                for s in STORES:
-                    for m in MODES:
-                        for p in PRES:
-                            if keep(m, p, pi, len(pos)):
-                                cases.append({"family": "seamfree", "graph": g, "store": s, "mode": m, "pre": p, "exc": e, "path": [list(x) for x in path]})
+        for s in STORES:
+            for sp, base in spellings(g, s):
+                idxs = range(len(pos)) if (base or not ctx.quick) else sorted({0, len(pos) - 1})
+                for pi in idxs:
+                    for e in (poison_exc if base else ["PicklingError"]):
+                        for m in MODES:
+                            for p in PRES:
+                                if keep(m, p, pi, len(pos)):
+                                    cases.append(tag_spell({"family": "seamfree", "graph": g, "store": s, "mode": m, "pre": p, "exc": e, "path": [list(x) for x in pos[pi]]}, sp, base))
     n_seamfree = sum(1 for c in cases if c["family"] == "seamfree")
     # family (ii): injected
     n_inj = 0
     if have_seams:
         for g in graphs:
             for s in STORES:
-                n = len(effects[(g, s)])
-                for k in range(n):
-                    for e in inj_exc:
-                        for m in MODES:
-                            for p in PRES:
-                                if keep(m, p, k, n):
-                                    cases.append({"family": "injected", "graph": g, "store": s, "mode": m, "pre": p, "exc": e, "k": k, "n_effects": n})
-                                    n_inj += 1
-    ctx.say(f"{len(cases)} executions: {n_seamfree} seam-free, {n_inj} injected, {len(cases) - n_seamfree - n_inj} controls")
+                log = effects[(g, s)]
+                n = len(log)
+                zw = [i for i, tag in enumerate(log) if tag.startswith("ZipFile.write")]
+                for sp, base in spellings(g, s):
+                    if not base:
+                        cases.append(tag_spell({"family": "record", "graph": g, "store": s, "mode": "w", "pre": "absent", "exc": None, "k": None, "n_effects": n}, sp, base))
+                    ks = range(n) if (base or not ctx.quick) else sorted({0, n // 2, n - 1} | ({zw[len(zw) // 2]} if zw else set()))
+                    for k in ks:
+                        for e in (["OSError"] if not base else inj_exc if (not ctx.quick or g in ki_graphs) else [x for x in inj_exc if x != "KeyboardInterrupt"]):
+                            for m in MODES:
+                                for p in PRES:
+                                    if keep(m, p, k, n):
+                                        cases.append(tag_spell({"family": "injected", "graph": g, "store": s, "mode": m, "pre": p, "exc": e, "k": k, "n_effects": n}, sp, base))
+                                        n_inj += 1
+    n_alt = sum(1 for c in cases if "spell" in c)
+    ctx.say(f"{len(cases)} executions: {n_seamfree} seam-free, {n_inj} injected, {len(cases) - n_seamfree - n_inj} controls / recorded no-fault runs; {n_alt} of them with a non-baseline target spelling")
     merged = ctx.pmap(work, cases, chunk=12, label="faults", seed=ctx.seed, scratch=ctx.scratch)
 
     fired_sf = int(merged.extra["seamfree_faults_fired"])
@@ -789,13 +862,21 @@ def run(ctx):
             "modes": MODES,
             "pre_states": PRES,
             "injected_exceptions": inj_exc,
+            "keyboardinterrupt_injected_into_graphs": ki_graphs,
             "poison_exceptions": poison_exc,
+            "target_spellings": SPELLINGS,
         },
         bounds={
             "write_effects_per_graph_store": {f"{g}/{s}": len(v) for (g, s), v in effects.items()},
             "attribute_positions_per_graph": npos,
             "effect_kinds_recorded": kinds,
             "write_once_refusal_positions": "first and last only" if ctx.quick else "all",
+            "non_baseline_spellings": {
+                "graphs": alt_graphs,
+                "fault_positions": "first, middle, middle of the zip assembly, last" if ctx.quick else "all",
+                "exceptions": ["OSError", "PicklingError"],
+                "executions": n_alt,
+            },
         },
         seams_found=[tag for _, _, tag, _, _ in seams],
         faults_fired=fired_sf + fired_inj,
@@ -806,6 +887,8 @@ def run(ctx):
     if have_seams and fired_inj == 0:
         raise Broken("injected family: no fault ever fired")
     if merged.nfails == 0:
+        if merged.extra["effect_count_differs_for_spelling"]:
+            raise Broken("a non-baseline target spelling produced a different number of write effects than the reference run")
         if merged.extra["expected_fault_did_not_fire"]:
             raise Broken(f"{int(merged.extra['expected_fault_did_not_fire'])} faults that should have fired did not (effect numbering not reproducible?)")
         if merged.extra["fault_fired_in_write_once_refusal"]:
